@@ -786,10 +786,39 @@ def remap_by_types(
 
             return r_node
 
+        def process_called_lambda(self, node: ast.Call) -> ast.Call:
+            """Type follow the body of an immediately called lambda,
+            `(lambda x: x.pt())(j)`: the parameters get the types of the arguments.
+            """
+            lam = node.func
+            assert isinstance(lam, ast.Lambda)
+            arg_names = [a.arg for a in lam.args.args]
+            arg_types: Dict[str, Any] = {n: Any for n in arg_names}
+            for name, a in zip(arg_names, node.args):
+                arg_types[name] = self.lookup_type(a)
+            for kw in node.keywords:
+                if kw.arg in arg_types:
+                    arg_types[kw.arg] = self.lookup_type(kw.value)
+
+            # The parameters hide any outer variable of the same name while we are in the body
+            hidden = {n: self._found_types[n] for n in arg_names if n in self._found_types}
+            self._found_types.update(arg_types)
+            try:
+                lam.body = self.visit(lam.body)
+            finally:
+                for n in arg_names:
+                    self._found_types.pop(n, None)
+                self._found_types.update(hidden)
+
+            self._found_types[node] = self.lookup_type(lam.body)
+            return node
+
         def visit_Call(self, node: ast.Call) -> ast.AST:
             t_node = self.generic_visit(node)
             assert isinstance(t_node, ast.Call)
-            if isinstance(t_node.func, ast.Attribute):
+            if isinstance(t_node.func, ast.Lambda):
+                t_node = self.process_called_lambda(t_node)
+            elif isinstance(t_node.func, ast.Attribute):
                 # Do we know the type of the value?
                 found_type = self.lookup_type(t_node.func.value)
                 if found_type is not None:
